@@ -118,6 +118,7 @@ def normalise_program(trees: Dict[str, ast.Module], pkgs: Set[str]) -> None:
     if inlined:
         _drop_dead_helpers(trees)
     _inline_private_tables(trees)
+    ho.record_unpack(trees)
     for m, t in trees.items():
         if not (".tests" in m or m.endswith("tests")):
             ho.empty_yield_from(t)
